@@ -10,6 +10,7 @@
 package zzverif
 
 import (
+	"math"
 	"encoding/hex"
 	"encoding/json"
 	"fmt"
@@ -320,3 +321,6 @@ func IteStr(c bool, a, b string) string {
 	}
 	return b
 }
+
+// Float64 returns an arbitrary float64 (engine: symbolic; native: from bits).
+func Float64(name string) float64 { return math.Float64frombits(nextInt(name)) }
